@@ -1,7 +1,6 @@
 package props
 
 import (
-	"context"
 	"encoding/json"
 	"fmt"
 	"math/rand"
@@ -10,12 +9,6 @@ import (
 	"regexp"
 	"strings"
 
-	"github.com/mimecast/dtail/internal/io/fs"
-	"github.com/mimecast/dtail/internal/io/line"
-	"github.com/mimecast/dtail/internal/lcontext"
-	dregex "github.com/mimecast/dtail/internal/regex"
-	"github.com/mimecast/dtail/internal/source"
-	"github.com/mimecast/dtail/verifharness/internal/dt"
 	"github.com/mimecast/dtail/verifharness/internal/vlib"
 )
 
@@ -122,155 +115,6 @@ type c03Result struct {
 
 func init() {
 	Drivers["C03"] = c03
-	Children["c03api"] = c03Child
-}
-
-// readerRun runs the real cat reader over path and returns the emitted lines.
-func readerRun(path string, pattern string, invert bool, b, a, m int, capHint int) ([]uint64, []string, error) {
-	flag := dregex.Default
-	if invert {
-		flag = dregex.Invert
-	}
-	re, err := dregex.New(pattern, flag)
-	if err != nil {
-		return nil, nil, err
-	}
-	serverMessages := make(chan string, 16)
-	lines := make(chan *line.Line, capHint+8)
-	ctx, cancel := context.WithCancel(context.Background())
-	stop := make(chan struct{})
-	go func() {
-		for {
-			select {
-			case <-serverMessages:
-			case <-stop:
-				return
-			}
-		}
-	}()
-	reader := fs.NewCatFile(path, "id", serverMessages)
-	err = reader.Start(ctx, lcontext.LContext{BeforeContext: b, AfterContext: a, MaxCount: m}, lines, re)
-	cancel()
-	close(stop)
-	var counts []uint64
-	var contents []string
-	for {
-		select {
-		case l := <-lines:
-			counts = append(counts, l.Count)
-			contents = append(contents, l.Content.String())
-		default:
-			return counts, contents, err
-		}
-	}
-}
-
-func c03CheckOne(dir string, tag string, lines []string, finalNL bool, pattern string, invert bool, params [][3]int, res *c03Result) {
-	body := strings.Join(lines, "\n")
-	if len(lines) > 0 && finalNL {
-		body += "\n"
-	}
-	path := filepath.Join(dir, tag+".txt")
-	os.WriteFile(path, []byte(body), 0644)
-	defer os.Remove(path)
-	sel, err := selection(lines, pattern, invert)
-	if err != nil {
-		res.Err = err.Error()
-		return
-	}
-	for _, p := range params {
-		want := grepModel(sel, p[0], p[1], p[2])
-		counts, contents, rerr := readerRun(path, pattern, invert, p[0], p[1], p[2], len(lines))
-		res.Runs++
-		res.Emitted += len(counts)
-		why := ""
-		if rerr != nil {
-			why = "reader error: " + rerr.Error()
-		} else if len(counts) != len(want) {
-			why = fmt.Sprintf("%d lines emitted, want %d", len(counts), len(want))
-		} else {
-			for k := range want {
-				if int(counts[k]) != want[k]+1 {
-					why = fmt.Sprintf("output #%d is line %d, want line %d", k, counts[k], want[k]+1)
-					break
-				}
-				exp := lines[want[k]] + "\n"
-				if want[k] == len(lines)-1 && !finalNL {
-					exp = lines[want[k]]
-				}
-				if contents[k] != exp {
-					why = fmt.Sprintf("output #%d (line %d) has content %q, want %q", k, counts[k], contents[k], exp)
-					break
-				}
-			}
-		}
-		if why != "" && len(res.Mismatches) < 5 {
-			mm := c03Mismatch{Lines: clipStrings(lines, 40), FinalNL: finalNL, Pattern: pattern, Invert: invert,
-				Before: p[0], After: p[1], Max: p[2], Why: why}
-			for _, c := range counts {
-				mm.Got = append(mm.Got, int(c))
-			}
-			for _, w := range want {
-				mm.Want = append(mm.Want, w+1)
-			}
-			if len(mm.Got) > 60 {
-				mm.Got = mm.Got[:60]
-			}
-			if len(mm.Want) > 60 {
-				mm.Want = mm.Want[:60]
-			}
-			res.Mismatches = append(res.Mismatches, mm)
-		}
-	}
-}
-
-func c03ExhaustiveParams(n int) [][3]int {
-	vals := []int{0, 1, 2, 3, 5, n + 1}
-	var out [][3]int
-	for _, b := range vals {
-		for _, a := range vals {
-			for _, m := range vals {
-				out = append(out, [3]int{b, a, m})
-			}
-		}
-	}
-	return out
-}
-
-func c03Child(args []string) int {
-	dir := args[0]
-	dt.Init(source.Client, "none", "none", "error", true)
-	return vlib.BatchMain(dir, func(i int, raw json.RawMessage) interface{} {
-		var c c03Case
-		json.Unmarshal(raw, &c)
-		var res c03Result
-		if c.Exhaustive {
-			params := c03ExhaustiveParams(c.N)
-			for mask := c.MaskLo; mask < c.MaskHi; mask++ {
-				lines := make([]string, c.N)
-				for k := 0; k < c.N; k++ {
-					if mask&(1<<uint(k)) != 0 {
-						lines[k] = fmt.Sprintf("m%d", k)
-					} else {
-						lines[k] = fmt.Sprintf("x%d", k)
-					}
-				}
-				for _, nl := range []bool{true, false} {
-					if c.N == 0 && !nl {
-						continue
-					}
-					for _, inv := range []bool{false, true} {
-						c03CheckOne(dir, fmt.Sprintf("e%d", i), lines, nl, "^m", inv, params, &res)
-						res.Distinct += len(params)
-					}
-				}
-			}
-			return res
-		}
-		c03CheckOne(dir, fmt.Sprintf("r%d", i), c.Lines, c.FinalNL, c.Pattern, c.Invert, c.Params, &res)
-		res.Distinct = len(c.Params)
-		return res
-	})
 }
 
 // regex generator (RE2 syntax) with the words of the file as raw material.
